@@ -106,6 +106,19 @@ func e2eExec(c *e2eCase, work string, tr *vTrace, logLines bool) (*e2eResult, ma
 			return nil, nil, err
 		}
 	}
+	for _, n := range c.Pre {
+		if n.Like > 0 && n.Like <= len(c.Nodes) && !n.Dir {
+			b := e2eContent(n.Size, c.Nodes[n.Like-1].Kind, (c.Seed+int64(n.Like-1))*131)
+			if n.DivergeAt > 0 {
+				for i := n.DivergeAt; i < int64(len(b)); i++ {
+					b[i] ^= 0x55
+				}
+			}
+			if err := os.WriteFile(filepath.Join(dst, n.Rel), b, 0644); err != nil {
+				return nil, nil, err
+			}
+		}
+	}
 	pre := e2eSnapshot(dst)
 	e2eSrcCache = map[string]map[string]e2eEntry{}
 	for _, t := range tops {
@@ -427,8 +440,8 @@ func e2eExec(c *e2eCase, work string, tr *vTrace, logLines bool) (*e2eResult, ma
 	for _, e := range entries {
 		if e["got"] != "missing" && e["got"] != "unnamed" {
 			rel := e["rel"].(string)
-			if pv, ok := pre[rel]; ok && pv == postNow[rel] {
-				continue
+			if pv, ok := pre[rel]; ok && (pv == postNow[rel] || (pv.Dir && postNow[rel].Dir)) {
+				continue // it was there before (a directory that existed is entered, never replaced)
 			}
 			npresent++
 		}
